@@ -316,6 +316,12 @@ impl Plan {
         if rng.chance(1, 3) {
             t6.push(Ipv6Addr::new(0xfe80, 0, 0, 0, rng.u16(), rng.u16(), rng.u16(), rng.u16()));
         }
+        if rng.chance(1, 6) {
+            // a handled address of a special-purpose form (IPv4-mapped / IPv4-compatible)
+            let o = t4[0].octets();
+            let hi = if rng.chance(2, 3) { 0xffff } else { 0 };
+            t6.push(Ipv6Addr::new(0, 0, 0, 0, 0, hi, ((o[0] as u16) << 8) | o[1] as u16, ((o[2] as u16) << 8) | o[3] as u16));
+        }
         if has_list && rng.chance(1, 8) {
             // IPv4-only deployment
             t6.clear();
